@@ -51,8 +51,15 @@ Definition judge_c08 (g : cfg) (gh : g08) (o : obs) : list N * g08 :=
   let fc_pre := free_count (c_pid pre) in
   let fc_post := free_count (c_pid post) in
   let full_free := (fc_post =? g_idmax g) in
+  (* a PUBREC with a success code (none, 0x00, 0x10) does not complete the exchange: its identifier is
+     not released by that call (the PUBREL / PUBCOMP are still to come) *)
+  let early := match recv_pkt o with
+               | Some p => (k_type p =? T_PUBREC) && negb (k_rc_present p && (128 <=? k_rc p)) && memb (k_pid p) rel
+                           && negb (existsb is_error evs)
+               | None => false end in
   let v :=
     if negb rel_ok then [2]
+    else if early then [16]
     else match ob_op o with
     | OAcquire =>
       match ob_ret o with
